@@ -88,6 +88,9 @@ def bind_report(run, rows, real):
 
 
 def gather(run, quick):
+    # import everything hy loads lazily now: never inside a read that runs under the hang timer
+    import hy.core.macros, hy.core.result_macros, hy.core.hy_repr, hy.pyops, hy.repl  # noqa
+    hy.eval(hy.read("(when True 1)"))
     L = 3 if quick else 4
     rows, real = enum_bind(run, L, ALPHA, [], f"L{L}")
     fr, freal = enum_bind(run, 4 if quick else 5, FALPHA, ["f", "\"", "{"], "fstring")
@@ -254,6 +257,34 @@ def main_c19(run):
             elif st.startswith("other"):
                 run.violation("cut:" + p, f"{t!r} cut to {p!r} raised {st}", {"text": t, "prefix": p})
     run.cov["cut_points_checked"] = nchecked
+    # one reader object for a whole history of reads, as the REPL keeps one: whatever an earlier (truncated) text
+    # left behind, every read must give what a fresh reader gives for that text
+    import hy
+    from hy.reader import HyReader
+    from hy.reader.exceptions import LexException, PrematureEndOfInput
+    hist = sorted(real)
+    rng.shuffle(hist)
+    hist = hist[: (6000 if q else 60000)]
+    shared = HyReader()
+    prev = None
+    nshared = 0
+    for t in hist:
+        try:
+            list(hy.read_many(t, reader=shared))
+            st = "ok"
+        except PrematureEndOfInput:
+            st = "eof"
+        except LexException:
+            st = "lex"
+        except Exception as x:
+            st = "other:" + type(x).__name__
+        nshared += 1
+        if st != real[t][0]:
+            run.violation("shared-reader:" + repr([prev, t]), f"a reader that had just read {prev!r} gives {st} for {t!r}; a fresh "
+                          f"reader gives {real[t][0]}", {"previous": prev, "text": t})
+            shared = HyReader()
+        prev = t
+    run.cov["reads_with_a_reused_reader"] = nshared
     # longer programs: every prefix, classified by the spec (file mode gives the spec's outcome per prefix)
     progs = [t for t in mutated_programs(rng, 60 if q else 3000)[::4]]
     from hy.repl import REPL
@@ -311,12 +342,15 @@ def main_c19(run):
                       "every cut point of every TLC-enumerated well-formed text (<= %d characters, + f-string fields), "
                       "classified by the spec (CutLaw is a TLC-checked invariant): unclosed construct => "
                       "PrematureEndOfInput, between top-level forms => reads; plus every prefix of generated programs, "
-                      "validated by TLC, and the REPL's continuation prompt" % (3 if q else 4),
+                      "validated by TLC, the REPL's continuation prompt, and a history of all these texts read in random order by "
+                      "one reused reader object (each outcome must be the fresh reader's)" % (3 if q else 4),
                       extra={"exhaustive": True})
 
 
 # ---------------------------------------------------------------- C20
-SEPS = [" ", "\n", "\t", ";a\n", " #_ a ", "\r\n", " #_ (b c) ", " ; x\n\n", "\r", ";a\rb(\n"]
+SEPS = [" ", "\n", "\t", ";a\n", " #_ a ", "\r\n", " #_ (b c) ", " ; x\n\n", "\r", ";a\rb(\n",
+        # every ASCII whitespace character (string.whitespace): form feed and vertical tab too
+        "\f", "\v", " \v ", "\t\f\v\r\n "]
 
 
 def sugar_pairs(rng, n):
@@ -354,7 +388,7 @@ def main_c20(run):
     for t, row in items:
         base = [strip_pos(m) for m in real[t][1]]
         for k in row["gaps"]:
-            for sep in (SEPS if not q else rng.sample(SEPS, 3)):
+            for sep in (SEPS if not q else rng.sample(SEPS, 4)):
                 t2 = t[:k] + sep + t[k:]
                 st, val = read_models(t2)
                 nsep += 1
@@ -393,7 +427,7 @@ def main_c20(run):
     run.sample({"text": items[len(items) // 2][0], "gaps": items[len(items) // 2][1]["gaps"]})
     return run.finish("model_checking",
                       "SepLaw and ConcatLaw are TLC-checked invariants of the reader spec on every text <= %d characters; "
-                      "on the real reader: 8 separators (whitespace, comments, #_ discards) inserted at every gap the spec "
+                      "on the real reader: 14 separators (each ASCII whitespace character, comments, #_ discards) inserted at every gap the spec "
                       "marks between forms, random concatenations, and sugar / long-form pairs built from one tree "
                       "(both validated by TLC)" % (3 if q else 4))
 
